@@ -240,14 +240,10 @@ def run(ctx):
         ctx.check(okn, RC, "decode_from_to::when-flagged-finished-and-available", f["file"],
                   "slice path: checksum read only when flagged, after the last block, with 4 bytes available")
         fin = ctx.hir(FD + "::is_finished")
-        s = hq.Canon(fin, inline=True, force=True, max_depth=4)(hq.tail_expr(fin["body"]))
-        t = hq.peel(hq.tail_expr(fin["body"]))
-        ok = t.get("k") == "If" and "content_checksum_flag" in H.show(t["cond"])
-        if ok:
-            th, el = H.show(hq.peel(t["then"])), H.show(hq.peel(t["else"]))
-            ok = "&&" in th and "frame_finished" in th and "check_sum.is_some()" in th and el.endswith("frame_finished") and "||" not in th
+        from . import c10 as _c10
+        ok, _shape = _c10.is_finished_table(ctx)
         ctx.check(ok, RC, "is_finished::requires-checksum-when-flagged", fin["file"],
-                  "a flagged frame is finished only once the checksum was read", observed=s[:240])
+                  "a flagged frame is finished only once the checksum was read", observed=_shape)
     ctx.guard(RC, "read_ck", read_ck)
     ctx.floor("C08.all", len([o for o in ctx.obs if o.cfg == ctx.cfg]), 22, "C08 obligations")
 
